@@ -464,6 +464,9 @@ pub fn build(quick: bool) -> Pools {
     // ---- instants, zones ------------------------------------------------
     let tss_v = {
         let mut v = vf::pools::timestamps();
+        // the catalogue's products are sized for about twenty instants: the 18
+        // basic ones and the four around +2^63 ns of the shared pool
+        v.truncate(22);
         // limits first
         v.sort_by_key(|t| if *t == Timestamp::MIN || *t == Timestamp::MAX { 0 } else { 1 });
         v
